@@ -205,14 +205,17 @@ def _shot(tag, tags, maxk, k=None):
     return ents
 
 
-@lemma("C19", params=[(0,), (1,), (2,)],
-       bounds="2 shots with <= 3 entries in total (quick) / 3 shots (thorough; third shot <= 1 entry) of <= 2 entries each over tags {c, d, c[1]}; data a bit or a list of 2 bits (quick) / 1..2 bits (thorough); "
+@lemma("C19", params=[(0,), (1,), (2,), (3,)],
+       bounds="task 3: three shots of <= 1 entry each (a register may first appear in a later shot and change length after that); tasks 0..2: 2 shots with <= 3 entries in total (quick) / 3 shots (thorough; third shot <= 1 entry) of <= 2 entries each over tags {c, d, c[1]}; data a bit or a list of 2 bits (quick) / 1..2 bits (thorough); "
               "bit values and both strict flags symbolic; one task per entry count of the first shot",
        outside="more shots / longer shots", opts={"max_paths": 400000, "timeout_s": 3000})
 def multi_shot_strictness(k0):
     tags = ["c", "d", "c[1]"]
     ns = P(2, 3)
     shots = []
+    if k0 == 3:
+        ns = 0
+        shots = [_shot(f"s{s}", tags, 1) for s in range(3)]
     for s in range(ns):
         shots.append(_shot(f"s{s}", tags, (P(1, 2) if k0 == 2 else 2) if s < 2 else 1, k0 if s == 0 else None))
     strict_names = sym.bool("strict_names")
